@@ -5,6 +5,7 @@ package main
 import (
 	"fmt"
 	"go/ast"
+	"go/token"
 	"go/types"
 	"strings"
 )
@@ -48,7 +49,7 @@ func (ec *evalCtx) specCall(call *ast.CallExpr) Value {
 		func() {
 			defer func() {
 				if r := recover(); r != nil {
-					if u, ok := r.(unsupportedErr); ok && strings.Contains(u.msg, "unknown identifier") {
+					if u, ok := r.(unsupportedErr); ok && ec.pol > 0 && (strings.Contains(u.msg, "unknown identifier") || strings.Contains(u.msg, "definitely nil")) {
 						b = False
 						return
 					}
@@ -184,6 +185,53 @@ func (ec *evalCtx) specCall(call *ast.CallExpr) Value {
 	case "in":
 		need(1)
 		return ec.inLval(arg(0)).get()
+	case "doc":
+		need(1)
+		return ec.docValue(arg(0))
+	case "pending", "sticky", "target":
+		need(1)
+		p, ok := arg(0).(*PtrV)
+		if !ok {
+			panic(unsupported("%s of %T", name, arg(0)))
+		}
+		sv, ok := ec.st.heap[p.Obj].(*StructV)
+		if !ok || sv.F["$target"] == nil {
+			panic(unsupported("%s: not a bufio.Writer object", name))
+		}
+		return sv.F[map[string]string{"pending": "buf", "sticky": "$err", "target": "$target"}[name]]
+	case "payload":
+		// payload(w, T): the value of dynamic type T held by interface value w
+		need(2)
+		iv, ok := arg(0).(*IfaceV)
+		if !ok {
+			panic(unsupported("payload of %T", arg(0)))
+		}
+		pos := token.NoPos
+		if ec.fc != nil && ec.fc.body != nil {
+			pos = ec.fc.body.Lbrace + 1
+		}
+		t := ec.e().evalTypeExpr(ec.pkg, pos, call.Args[1])
+		_, p := ec.assertTo(iv, t)
+		return p
+	case "underlying":
+		need(1)
+		sv, _, ok := ec.runtimeBufferSym(arg(0))
+		if !ok {
+			panic(unsupported("underlying: not a runtime.Buffer"))
+		}
+		return sv.F["Underlying"]
+	case "dyntype":
+		need(2)
+		iv, ok := arg(0).(*IfaceV)
+		if !ok {
+			panic(unsupported("dyntype of %T", arg(0)))
+		}
+		pos := token.NoPos
+		if ec.fc != nil && ec.fc.body != nil {
+			pos = ec.fc.body.Lbrace + 1
+		}
+		t := ec.e().evalTypeExpr(ec.pkg, pos, call.Args[1])
+		return Eq(iv.Tag, Int(ec.e().typeTag(types.TypeString(t, nil))))
 	case "held":
 		need(1)
 		if v, ok := ec.st.ghost["lock:"+exprString(call.Args[0])].(*Term); ok {
